@@ -513,8 +513,8 @@ func checkCanonical(e *enumCtx, typ byte, in []byte) {
 func C03(c *core.Ctx) {
 	e := &enumCtx{c: c, seen: map[string]bool{}}
 	th := c.Thorough()
-	c.Rep.Bound = "field products over boundary alphabets; accepted byte strings up to 7 bytes over an 8-value byte alphabet; 2 x (2*65536+8) automatically numbered encodes per type"
-	c.Rep.Rule = "ENUM: nested loops over boundary values of every field of all 14 packet types (string/payload lengths, remaining lengths at varint boundaries, flags, 1..1000 topics, packet ids incl. automatic ones at counter wrap); a case is distinct+non-trivial per (type, structural shape, length of the remaining-length field); oracle = independent reference codec"
+	c.Rep.Bound = "field products over boundary alphabets; accepted byte strings up to 7 bytes over an 8-value byte alphabet; 2 x (2*65536+8) automatically numbered encodes per type; every sequence of public setter / Len / Encode calls up to depth 4 (quick) / 5-6 (thorough) on fresh, decoded and cloned objects of 11 packet types"
+	c.Rep.Rule = "ENUM: nested loops over boundary values of every field of all 14 packet types (string/payload lengths, remaining lengths at varint boundaries, flags, 1..1000 topics, packet ids incl. automatic ones at counter wrap); a case is distinct+non-trivial per (type, structural shape, length of the remaining-length field); oracle = independent reference codec; setter histories: the calls are mirrored on a plain reference record, and at the end of every sequence Len/Encode/getters/Decode must agree with it"
 	if c.Replay != nil {
 		fmt.Printf("replay of an input-enumeration finding: class %q\n  %s\n  input: %s\n", c.Replay.Scenario, c.Replay.Message, string(c.Replay.Input))
 		c.Rep.Scenarios = 1
@@ -528,6 +528,8 @@ func C03(c *core.Ctx) {
 		cl.f(e, th)
 		c.Rep.Scenarios++
 	}
+	setterHistories(e, th)
+	c.Rep.Scenarios++
 	e.class = "accepted-strings"
 	maxLen := 6
 	if th {
